@@ -1401,6 +1401,11 @@ impl<'de, R: Read<'de>> Parser<R> {
         let f: f64 = unsafe { str::from_utf8_unchecked(&self.scratch) }
             .parse()
             .map_err(|_| self.error(ErrorCode::NumberOutOfRange))?;
+        // The standard library returns infinity for magnitudes beyond the
+        // range of `f64`; report those instead, like the fast path does.
+        if f.is_infinite() {
+            return Err(self.error(ErrorCode::NumberOutOfRange));
+        }
         if !pos {
             return Ok(f * -1.0);
         }
